@@ -338,7 +338,11 @@ pub fn make_config(
             }
             holds(&coll, &l4, s)
         }))
-        .execution_mode(ExecutionMode::Debug)
+        .execution_mode(if kv(ws, "xmode") == "default" {
+            ExecutionMode::Default
+        } else {
+            ExecutionMode::Debug
+        })
         .visited_states(visited)
 }
 
